@@ -85,6 +85,7 @@ class Obligation:
     inputs: list = field(default_factory=list)  # (name, ty-name) for model extraction
     hints: list = field(default_factory=list)
     cover: bool = False  # cover query: must be SAT
+    trace: str = ""
 
 
 class Ctx:
@@ -186,7 +187,7 @@ class Ctx:
             self.obligations.append(Obligation(name, [], z3.BoolVal(True), self.path_id, kind, line, list(self.inputs)))
             return
         self.obligations.append(
-            Obligation(name, list(self.pc) + self.axioms(), goal, self.path_id, kind, line, list(self.inputs), list(hints or []))
+            Obligation(name, list(self.pc) + self.axioms(), goal, self.path_id, kind, line, list(self.inputs), list(hints or []), trace=" ".join(self.decisions_desc))
         )
         # assume it from here on so one failure is reported once
         if not z3.is_false(goal):
